@@ -560,6 +560,44 @@ Theorem C09_seq_delete_all_single_in_histories :
 Proof. intros ops pool r x y e _. apply step_delete_all_single. Qed.
 Print Assumptions C09_seq_delete_all_single_in_histories.
 
+(* UNIQUE (arraytype.go:724, after fix - see known_findings/C09.json unique-keyless-nan): total on every array, and the
+   FIRST OCCURRENCES modulo Equals: the element at a position is kept exactly when no earlier element of the array is
+   equal to it (first_occ_from seen: `seen` = all earlier elements, kept or not), although the code compares with the
+   KEPT elements only (sunique_from kept) - Equals is transitive and what is equal to something is equal to itself. *)
+Theorem C09_unique_is_first_occurrences : forall l, sunique l = first_occ l.
+Proof. exact unique_is_first_occurrences. Qed.
+Print Assumptions C09_unique_is_first_occurrences.
+
+Theorem C09_seq_equals_transitive : forall a b c, aeq a b = true -> aeq b c = true -> aeq a c = true.
+Proof. exact aeq_trans. Qed.
+Print Assumptions C09_seq_equals_transitive.
+
+(* nodup modulo equality: no two kept elements are equal, they are elements of the array, every element that is equal
+   to itself has an equal among them, and the elements equal to nothing (two NaN, a Sensitive, a list holding one) ALL
+   stay, in order *)
+Theorem C09_unique_nodup_modulo_equality_any_values :
+  forall l, ForallOrdPairs (fun a b => aeq a b = false) (sunique l) /\
+            (forall e, In e (sunique l) -> In e l) /\
+            (forall e, In e l -> aeq e e = true -> exists w, In w (sunique l) /\ aeq w e = true) /\
+            filter (fun e => negb (aeq e e)) (sunique l) = filter (fun e => negb (aeq e e)) l.
+Proof.
+  intros l. split; [apply unique_no_two_equal|]. split; [apply unique_elements_of|].
+  split; [apply unique_holds_an_equal_of_every_element|apply unique_keeps_never_equal].
+Qed.
+Print Assumptions C09_unique_nodup_modulo_equality_any_values.
+
+Theorem C09_seq_unique_total_in_histories :
+  forall ops pool r l, pool = spool_after [] ops -> arr_of pool r = Some l ->
+    sstep pool (SUnique r) = OV (EArr (sunique l)).
+Proof. intros ops pool r l _. apply step_unique_total. Qed.
+Print Assumptions C09_seq_unique_total_in_histories.
+
+Example C09_seq_unique_nonvacuous :
+  let one := EAtom false 1 in let obj := EAtom true 20 in let nan := ENever false 1 in let sens := ENever true 3 in
+  sunique [one; obj; nan; EArr [obj]; one; nan; obj; sens; EArr [obj]; EArr [nan]; EArr [nan]]
+  = [one; obj; nan; EArr [obj]; nan; sens; EArr [nan]; EArr [nan]].
+Proof. vm_compute. reflexivity. Qed.
+
 (* Non-vacuity: [1, obj, NaN, 2, 1] with obj an instance of an Object type (no hash key): DeleteAll([1]) = Delete(1) =
    [obj, NaN, 2]; DeleteAll([NaN, obj']) with obj' an equal instance removes obj and keeps NaN. *)
 Example C09_seq_nonvacuous :
